@@ -2,6 +2,8 @@ pub mod c09;
 pub mod c10;
 pub mod c12;
 pub mod c13;
+pub mod c17;
+pub mod c18;
 pub mod c19;
 pub mod conc;
 pub mod evict;
